@@ -103,6 +103,8 @@ func init() {
 						w.knownHit = map[string]*sym.Term{}
 					}
 					w.knownHit[id] = nil
+				} else {
+					delete(w.knownHit, id) // a later verifKnown(id, false) ends the finding's scope
 				}
 			case symVal:
 				if w.knownHit == nil {
@@ -180,7 +182,7 @@ var interpretable = map[string]bool{
 	"path": true, "maps": true, "cmp": true, "net/url": true, "net/http": true, "net/textproto": true,
 	"internal/stringslite": true, "internal/bytealg": true, "iter": true, "math": true, "math/bits": true,
 	"internal/itoa": true, "strconv": true, "internal/godebug": false,
-	"github.com/go-openapi/jsonpointer": true,
+	"github.com/go-openapi/jsonpointer":     true,
 	"vendor/golang.org/x/net/http/httpguts": true, "vendor/golang.org/x/net/http/httpproxy": false,
 }
 
